@@ -214,7 +214,11 @@ func isAtom(v sx.V, names ...string) bool {
 // c07Oracle evaluates the implementation-only oracles for one input whose
 // c07.parse outcome (from the guarded child) is out.  An input that crashed,
 // hung or panicked there is reported and never executed again.
-func c07Oracle(c *Ctx, in sx.V, out sx.V) {
+func c07Oracle(c *Ctx, in sx.V, out sx.V) { c07OracleOpt(c, in, out, true) }
+
+// c07OracleOpt: withAlloc = false skips the allocation measurement (sampling
+// of the plain substitution stream in the quick tier).
+func c07OracleOpt(c *Ctx, in sx.V, out sx.V, withAlloc bool) {
 	switch {
 	case isAtom(out, "crash"):
 		c.Fail("c07.parse", in, "parse-crash", "boc.DeserializeBoc killed the process (fatal runtime error: out of memory / stack overflow) on this input")
@@ -226,7 +230,9 @@ func c07Oracle(c *Ctx, in sx.V, out sx.V) {
 		c.Fail("c07.parse", in, "parse-panic", "boc.DeserializeBoc panicked on this input")
 		return
 	}
-	c07AllocOracle(c, in)
+	if withAlloc {
+		c07AllocOracle(c, in)
+	}
 	if !isAtom(out, "err") {
 		c07PrintOracle(c, in, &c07st.printHangs)
 		c07HashOracleH(c, in, 0, &c07hs.genericHangs)
@@ -244,7 +250,7 @@ func c07AllocOracle(c *Ctx, in sx.V) {
 	// runtime may have allocated on its own in the window must not raise an alarm
 	for attempt := 0; attempt < 2; attempt++ {
 		t0 := time.Now()
-		res := guardedExec("c07.alloc", in, c07AllocTimeout)
+		res := c07Timed("c07.alloc", in, c07AllocTimeout)
 		if ms := time.Since(t0).Milliseconds(); ms > c07st.maxAllocMs {
 			c07st.maxAllocMs = ms
 		}
@@ -291,7 +297,7 @@ func c07PrintOracleLines(c *Ctx, in sx.V, hangs *int) (perRoot []sx.V, ok bool) 
 		return nil, false
 	}
 	t0 := time.Now()
-	res := guardedExec("c07.print", in, c07PrintTimeout)
+	res := c07Timed("c07.print", in, c07PrintTimeout)
 	if ms := time.Since(t0).Milliseconds(); ms > c07st.maxPrintMs {
 		c07st.maxPrintMs = ms
 	}
@@ -374,7 +380,7 @@ func c07DumpStats() {
 			"print calls %d, max lines %d, max printed bytes %d, max (ToBoc len - input len) %d, max print call %d ms\n"+
 			"hangs: alloc %d, print %d\n",
 		s.nAlloc, slope, s.maxSlopeNum, s.maxSlopeLen, s.maxSmall, s.maxAllocMs,
-		s.nPrint, s.maxLines, s.maxPrintBytes, s.maxReserExcess, s.maxPrintMs, s.allocHangs, s.printHangs+s.shareHangs)+c07HashStatsString()), 0o644)
+		s.nPrint, s.maxLines, s.maxPrintBytes, s.maxReserExcess, s.maxPrintMs, s.allocHangs, s.printHangs+s.shareHangs)+c07HashStatsString()+c07SpentString()), 0o644)
 }
 
 // ---------------------------------------------------------------------------
@@ -515,7 +521,7 @@ func c07SharingDags(c *Ctx, r *prng.R) []c07ShareCase {
 	var out []c07ShareCase
 	payload := func() string { return randBits(r, r.Intn(17)) }
 	// chain: every cell references the next one m times
-	quickK := map[int]bool{16: true, 17: true, 18: true, 19: true, 24: true, 32: true, 41: true, 60: true}
+	quickK := map[int]bool{17: true, 18: true, 24: true, 60: true}
 	for k := 5; k <= 60; k++ {
 		// quick tier: every k around the points where 4^k, 3^k, 2^k cross the
 		// budget, and a few large ones (an over-budget case costs ~0.2 s)
@@ -523,6 +529,11 @@ func c07SharingDags(c *Ctx, r *prng.R) []c07ShareCase {
 			continue
 		}
 		for m := 1; m <= 4; m++ {
+			// the deep over-budget prints are the expensive ones (string
+			// concatenation: O(depth * output), 0.2 .. 0.6 s each)
+			if !c.Thorough() && ((k == 24 && m%2 == 1) || (k == 60 && m != 4 && m != 1)) {
+				continue
+			}
 			dag := make([]Node, k)
 			for i := range dag {
 				dag[i].Bits = payload()
@@ -538,7 +549,7 @@ func c07SharingDags(c *Ctx, r *prng.R) []c07ShareCase {
 	// lattices: cell i references i+1 .. i+w (Fibonacci-like growth)
 	for w := 2; w <= 4; w++ {
 		for _, k := range []int{8, 12, 16, 20, 24, 26, 28, 32, 40, 48, 60} {
-			if !c.Thorough() && k%8 != 0 && k != 26 {
+			if !c.Thorough() && k != 8 && k != 16 && k != 26 && k != 60 {
 				continue
 			}
 			dag := make([]Node, k)
@@ -554,7 +565,7 @@ func c07SharingDags(c *Ctx, r *prng.R) []c07ShareCase {
 	// layered diamonds: two cells per layer, each references both cells of the
 	// next layer twice
 	for _, layers := range []int{4, 8, 9, 10, 16, 24, 30} {
-		if !c.Thorough() && (layers == 10 || layers == 24) {
+		if !c.Thorough() && layers != 4 && layers != 9 && layers != 30 {
 			continue
 		}
 		k := 1 + 2*layers
@@ -574,7 +585,7 @@ func c07SharingDags(c *Ctx, r *prng.R) []c07ShareCase {
 		out = append(out, c07ShareCase{"diamond", dag})
 	}
 	// random multiplicities 1..4 along a chain, with occasional skips
-	nMixed := c.Scale(8, 200)
+	nMixed := c.Scale(4, 200)
 	for i := 0; i < nMixed; i++ {
 		k := 5 + r.Intn(56)
 		dag := make([]Node, k)
